@@ -1,4 +1,5 @@
 """C01 - Build yields exactly the split k-mers of the input, IUPAC-merged per k-mer."""
+import os
 import random
 
 from .. import gen as G
@@ -241,6 +242,9 @@ def run_case(desc, ctx):
     for variant in (['rel', 'chk'] if desc.get('chk') else ['rel']):
         binary = ctx.bins[variant]
         out = ctx.path(('o_' if desc['seed'] % 3 else 'E.coli.k12_') + variant)        # a third of the prefixes contain dots
+        if desc['seed'] % 4 == 1:
+            ctx.write(os.path.basename(out) + '.skf', os.urandom(50000))      # an older, larger file of that name exists
+            res.count('output_file_existed')
         p = G.ska_build(ctx, out, files, k, rcmode, binary=binary, extra=['--threads', desc['threads']] if desc.get('threads') else ())
         if variant == 'chk':
             res.count('chk_runs')
